@@ -254,6 +254,17 @@ MIXED_CASE = [
     "WITH Cte AS (SELECT a AS MixedCol FROM x) SELECT MixedCol, CTE.mixedcol FROM Cte",
 ]
 
+# derived tables / CTEs whose inner aliases conflict with aliases of the query they are merged into - in one, two or three names,
+# some of them differing only in a trailing counter (what re-optimising the optimizer's own output looks like): the renames that
+# merge_subqueries has to invent must not depend on the order in which a set of conflicts is visited
+MERGE_CONFLICTS = [
+    "SELECT q.a, x.b AS b1, x_2.b AS b2 FROM (SELECT x.a AS a FROM x AS x JOIN y AS x_2 ON x.a = x_2.b WHERE x_2.b > 1) AS q JOIN x AS x ON q.a = x.a JOIN y AS x_2 ON x.b = x_2.b",
+    "SELECT q.a, y.c, y_2.c AS c2, y_3.a AS a3 FROM (SELECT y.b AS a FROM y AS y JOIN y AS y_2 ON y.b = y_2.b JOIN z AS y_3 ON y_3.a = y.b) AS q JOIN y AS y ON q.a = y.b JOIN y AS y_2 ON y.c = y_2.c JOIN z AS y_3 ON y_3.a = q.a",
+    "WITH c AS (SELECT t.a AS a, t_2.c AS c FROM x AS t JOIN y AS t_2 ON t.b = t_2.b) SELECT c.a, t.b, t_2.c FROM c JOIN x AS t ON t.a = c.a JOIN y AS t_2 ON t_2.c = c.c",
+    "SELECT q.a FROM (SELECT x.a AS a FROM x AS x JOIN y AS y ON x.b = y.b) AS q JOIN x AS x ON q.a = x.a JOIN y AS y ON y.b = x.b",
+    "SELECT q.a, u.b FROM (SELECT u.a AS a FROM x AS u JOIN x AS u_2 ON u.a = u_2.a JOIN x AS u_2_2 ON u.a = u_2_2.a) AS q JOIN x AS u ON u.a = q.a JOIN x AS u_2 ON u_2.a = q.a",
+]
+
 # (dialect, sql, column, schema name) for lineage: operator chains whose column mappings are composed step by step
 LINEAGE_CASES = [
     ("snowflake", "SELECT id, n FROM sales UNPIVOT(score FOR month IN (jan, feb, mar, apr)) PIVOT(SUM(score) FOR region IN ('n' AS n, 's' AS s))", "n", "none"),
